@@ -156,6 +156,7 @@ class ReopenQ(EffectsQ):
     """effects mode over the reopen and drop paths (memory.rs map_mut_in / map_in with their closures, unmount; Options::open; Arena::from): obligations R1-R7 of C05"""
     name, props = "effects_reopen_path", ["C05", "C06", "C08"]
     module, native_flag, min_obligations = "mirsmt.reopen", "--reopen-check", 8
+    cross_check = True
     relevant = {"C06": ("R1",), "C08": ("R1",)}  # C06's crash model and C08's "reopened file" clause rest on the zeroing the real closure performs
 
     def bounds(self):
@@ -165,8 +166,23 @@ class ReopenQ(EffectsQ):
                 "trusted: MAP_SHARED stores reach the file, the OS honours set_len/sync_all")
 
 
+class TruncQ(EffectsQ):
+    """effects mode over Memory::truncate (memmap build, all backend arms) and unsync::Arena::truncate: obligations T1-T5 of C18"""
+    name, props = "effects_truncate_path", ["C18"]
+    module, native_flag, min_obligations = "mirsmt.trunc", "--truncate-check", 5
+    cross_check = True
+
+    def bounds(self):
+        return ("all paths of Memory::truncate (memmap-feature variant: Vec, file-backed, read-only file, anonymous-map arms) and of unsync::Arena::truncate "
+                "(no loops in them); caller contract allocated <= size <= u32::MAX assumed for Memory::truncate and decided for the wrapper (T5); callees outside the crate "
+                "opaque (fresh symbolic result + effect record), Options::with_* setters = same Options value with the argument recorded; cleanup (unwinding) paths not followed; "
+                "trusted: the kernel maps the file's bytes at the new length, set_len grows with zeros")
+
+
 def select(pid, tier, only=None):
     out = []
+    if pid in TruncQ.props and (not only or only in TruncQ.name):
+        out.append(TruncQ())
     if pid == "C09" and (not only or only in EffectsQ.name):
         out.append(EffectsQ())
     if pid in ReopenQ.props and (not only or only in ReopenQ.name):
@@ -580,7 +596,7 @@ def run_effects(q, pid, rc, scratch, logdir, known, out):
         else:
             sample["verdict"] = "pass"
             out["nontrivial"] += 1
-            if q.native_flag == "--reopen-check":
+            if getattr(q, "cross_check", False):
                 # cross-check of the encoding: the native close/reopen experiment must agree with "all obligations hold";
                 # a difference it shows that no obligation explains means the encoding misses something -> not a pass
                 binary = build_replay(rc, logdir)
@@ -589,11 +605,11 @@ def run_effects(q, pid, rc, scratch, logdir, known, out):
                     os.makedirs(d, exist_ok=True)
                     pr = subprocess.run([binary, q.native_flag, d], stdout=subprocess.PIPE, stderr=subprocess.STDOUT, text=True)
                     native = [l for l in pr.stdout.split("\n") if l.startswith("NATIVE")]
-                    sample["replay"] = {"exit": pr.returncode, "output": native[:12], "role": "cross-check of the encoding on this tree (72 native close/reopen experiments)"}
+                    sample["replay"] = {"exit": pr.returncode, "output": native[:12], "role": "cross-check of the encoding on this tree (native experiments through the public API, real files)"}
                     if pr.returncode != 0:
                         sample["verdict"] = "inconclusive"
                         out["nontrivial"] -= 1
-                        out["inconclusive"].append("%s: every obligation holds on the explored paths but the native close/reopen experiment shows a difference (%s): the encoding does not explain it" % (q.name, "; ".join(native[:2])[:300]))
+                        out["inconclusive"].append("%s: every obligation holds on the explored paths but the native experiment shows a difference (%s): the encoding does not explain it" % (q.name, "; ".join(native[:2])[:300]))
                 else:
                     sample["replay_note"] = "native cross-check skipped: replay harness does not build against this tree"
         out["samples"].append(sample)
@@ -611,7 +627,7 @@ def run_effects(q, pid, rc, scratch, logdir, known, out):
     native = [l for l in pr.stdout.split("\n") if l.startswith("NATIVE")]
     sample["replay"] = {"exit": pr.returncode, "output": native[:12]}
     confirmed = [o for o in failed if any(("%s violated" % o["id"]) in l for l in native)]
-    if not confirmed and q.native_flag == "--reopen-check" and any(" violated" in l for l in native):
+    if not confirmed and getattr(q, "cross_check", False) and any(" violated" in l for l in native):
         # the native experiment attributes a difference to the obligation whose *symptom* it sees (e.g. a file cut on drop
         # shows up as a failed reopen); any natively observed loss of state confirms the failed reopen obligations
         confirmed = failed
